@@ -153,6 +153,34 @@ if __name__ == "__main__":
         cmd_confirm(a[1])
     elif a[0] == "run":
         cmd_run(a[1], a[2:])
+    elif a[0] == "wave":      # wave <out-suffix> Cxx ... : import /tmp/wt/Cxx<suffix>-out/m1,m2 (skipping duplicates), confirm, run
+        import glob, re
+        suf = a[1]; new_ids = []
+        def core(path):
+            return [l for l in open(path).read().splitlines() if re.match(r"^[-+][^-+]", l)]
+        for p in a[2:]:
+            for m in ("m1", "m2"):
+                src = "/tmp/wt/%s%s-out/%s" % (p, suf, m)
+                if not os.path.exists(os.path.join(src, "patch.diff")):
+                    print(p, m, "no patch"); continue
+                dup = None
+                for old in sorted(glob.glob(os.path.join(VERIF, "seeded", "S-%s-m*" % p))):
+                    if core(os.path.join(old, "patch.diff")) == core(os.path.join(src, "patch.diff")):
+                        dup = old
+                if dup:
+                    print(p, m, "duplicate of", os.path.basename(dup), "- skipped"); continue
+                k = 1
+                while os.path.exists(os.path.join(VERIF, "seeded", "S-%s-m%d" % (p, k))):
+                    k += 1
+                i = "S-%s-m%d" % (p, k)
+                cmd_import(src, i, p); new_ids.append(i)
+            sh("git -C /repo worktree remove --force /tmp/wt/%s-wt" % p)
+        sh("git -C /repo worktree prune")
+        for i in new_ids:
+            cmd_confirm(i)
+        for i in new_ids:
+            if load(i).get("confirmed_ok"):
+                cmd_run(i, [])
     elif a[0] == "table":     # markdown table for DESIGN.md section 8.7
         import glob
         print("| id | breaks | site | what is broken (needs) | own check | other checks |")
